@@ -68,6 +68,9 @@ var (
 	DetectRoleReceiver = "receiver"
 )
 
+// maxListenRandomPorts bounds NatHoleDetectBehavior.ListenRandomPorts as received (the analyzer recommends 256).
+const maxListenRandomPorts = 1024
+
 type PrepareResult struct {
 	Addrs         []string
 	AssistedAddrs []string
@@ -201,11 +204,13 @@ func MakeHole(ctx context.Context, listenConn *net.UDPConn, m *msg.NatHoleResp, 
 		}
 
 		if m.DetectBehavior.ListenRandomPorts > 0 {
-			for i := 0; i < m.DetectBehavior.ListenRandomPorts; i++ {
+			// the number comes from the peer: never more sockets than the largest value the analyzer recommends
+			// times four, and no further attempts once the system refuses one
+			for i := 0; i < min(m.DetectBehavior.ListenRandomPorts, maxListenRandomPorts); i++ {
 				tmpConn, err := net.ListenUDP("udp4", nil)
 				if err != nil {
 					xl.Warnf("listen random udp addr error: %v", err)
-					continue
+					break
 				}
 				listenConns = append(listenConns, tmpConn)
 			}
